@@ -102,10 +102,26 @@ class LinkedUnitCollection(dict):
         # belongs to some other cell, the region has wrapped around a periodic
         # boundary: the difference v - u - m tells in which directions.
         G = self._search_graph
-        directions = set([0, 1, 2])
+        windings = []
         for source, target, data in G.edges(data=True):
             winding = np.array(target) - np.array(source) - np.array(data["multiplier"])
-            directions -= set(np.nonzero(winding)[0].tolist())
+            if winding.any():
+                windings.append(winding)
+
+        # The cell vectors can be inclined with respect to the periodic
+        # directions of the region, so a single wrap-around may have components
+        # along several of them. The number of connected directions is the
+        # number of linearly independent wrap-around vectors: a direction is
+        # reported for each independent column of the winding vectors.
+        directions = set([0, 1, 2])
+        if windings:
+            windings = np.array(windings)
+            selected = []
+            for direction in range(3):
+                candidate = selected + [direction]
+                if np.linalg.matrix_rank(windings[:, candidate]) == len(candidate):
+                    selected.append(direction)
+            directions -= set(selected)
 
         connected_directions = np.array([True, True, True])
         connected_directions[list(directions)] = False
